@@ -4,8 +4,8 @@ from .. import core, mt_check
 
 def run(tier, seed, verdict):
     quick = tier == "quick"
-    iters = 150 if quick else 6000
-    arith = 100000 if quick else 10000000
+    iters = 150 if quick else 1500
+    arith = 100000 if quick else 2000000
     res = mt_check.MtResult()
     victims = {"tstc": (0, 421, 422, 423), "epoll": (0, 431, 433, 435, 436), "uring": (0, 441, 443, 445, 446),
                "tuel": (0,)}
